@@ -145,13 +145,22 @@ def run(rep):
     rep.check(len(inits) >= 1 and all(E.tmpl_text(t).replace('let mut entries', 'let entries').startswith('let entries = std :: collections :: HashMap :: from ( [ #(') for t in inits), 'C12.shape', 'init-entries', where,
               'the map is not initialised from the required entries', ok_detail='let [mut] entries = HashMap::from([required..])')
     # ---- emission gate and entry helpers --------------------------------------------------------------------------------------------------
-    has_ov = ('t', ('mcall', OV, 'is_empty', []))
-    gate_ok = summ[0] == 'alt' and len(summ[1]) == 2 and E.find_templates(summ[1][0][1], lambda t: t is ot) and summ[1][0][0][0] == 'not' and \
-        summ[1][0][0][1][0] == 't' and summ[1][0][0][1][1][0] == 'mcall' and summ[1][0][0][1][1][2] == 'is_empty' and E.tmpl_text(summ[1][1][1]) == ''
-    gate_src = summ[1][0][0][1][1][1] if gate_ok else None
-    gate_equiv = gate_src is not None and (gate_src == OV or (gate_src[0] == 'star' and gate_src[1] == OV and not gate_src[4]))
-    rep.check(gate_ok and gate_equiv, 'C12.emission-gate', 'struct-iff-overrides', where,
-              'OverrideConstants is not emitted exactly when the module has overrides', ok_detail='emitted iff module.overrides is non-empty')
+    import engine_skel as K
+    gate = {}
+    for n_over in (0, 2):
+        def leaf(t, n_over=n_over):
+            if t == OV:
+                return ([('h', V('naga::Override', name=('some', f'o{i}'), id=None, ty='t', init=None)) for i in range(n_over)],)
+            return None
+        ev = K.SkelEval(ogp, None, {}, '', None, extra_leaf=leaf)
+        ev.lenient = True
+        try:
+            gate[n_over] = 'pub struct OverrideConstants' in str(ev.ev(summ))
+        except (Diverge, Unbound) as ex:
+            gate[n_over] = f'<{ex}>'
+    rep.check(gate.get(0) is False and gate.get(2) is True, 'C12.emission-gate', 'struct-iff-overrides', where,
+              f'OverrideConstants is emitted for a module without overrides: {gate.get(0)}, with overrides: {gate.get(2)}; expected exactly when the module has overrides',
+              ok_detail='emitted iff module.overrides is non-empty')
     n_h = 0
     for q2, v in ogp.summaries.items():
         for ht in E.find_templates(v, lambda t: t[3] == q2 and ('-> VertexEntry <' in E.tmpl_text(t) or '-> FragmentEntry <' in E.tmpl_text(t))):
